@@ -4,7 +4,8 @@
 
 typedef struct bvar_s {
 	int	W;		/* workers */
-	int	caller;		/* 0 = external thread, 1 = worker 0 (via a seed message), 2 = worker W-1 */
+	int	caller;		/* 0 = external thread, 1 = worker 0 (via a seed message), 2 = worker W-1,
+				 * 3 = the only thread of a second pool (outside the target pool, but tpt_get_current() is not NULL there) */
 	int	api;		/* 0 = tpt_msg_bsend_ex, 1 = tpt_msg_cbsend */
 	uint32_t flags;
 	int	notrun;		/* 0 all running; 1 thread 0 never started (skip_first); 2 last thread detached before the call;
@@ -29,6 +30,8 @@ static volatile int in_cb[40];		/* callback currently executing on thread n */
 static volatile int cb_active = 0;	/* number of user callbacks currently executing (overlap detection) */
 static int overlap_seen = 0;
 static int caller_tnum = -1;		/* thread number of the caller, -1 external */
+static int caller_tid = -1;		/* scheduler thread that made the call */
+static tp_p tp2 = NULL;			/* caller 3: the caller's own pool */
 static int call_rc = -1;
 static size_t call_sent = 9999, call_err = 9999;
 static int done_cnt = 0, done_tid = -1, done_ev = -1;
@@ -40,6 +43,10 @@ user_cb(tpt_p tpt, void *udata) {
 	int n = (int)tpt_get_num(tpt);
 	tpt_p curt = tpt_get_current();
 
+	if (tpt_get_tp(tpt) != tpc_tp) {	/* "runs the callback ... on every running pool thread it targets": a thread of another pool is not one */
+		sc_fail("cb-on-foreign-thread", "the callback ran with a thread of another pool as its thread argument (on T%d)", sc_self());
+		return;
+	}
 	tpc_add(E_CB_BEGIN, n, (long)(intptr_t)udata, (NULL != curt) ? (long)tpt_get_num(curt) : -1, 0);
 	if (cb_active > 0)
 		overlap_seen = 1;
@@ -65,6 +72,7 @@ do_call(tpt_p src) {
 	int rc;
 
 	tpc_add(E_CALL_BEGIN, caller_tnum, (long)cur->api, (long)cur->flags, 0);
+	caller_tid = sc_self();
 	if (cur->faults)
 		sc_fault_mask = SC_F_WRITE;
 	if (0 == cur->api) {
@@ -97,6 +105,14 @@ caller_seed_cb(tpt_p tpt, void *udata) {
 		if (k >= 400) sc_fail("harness", "the caller's queue never became full");
 		sc_log("caller filled its own queue with %d messages", fill_accepted);
 	}
+	do_call(NULL);
+	tpc_scribble();
+}
+
+static void
+caller_otherpool_cb(tpt_p tpt, void *udata) {	/* runs on the second pool's thread: a caller outside the target pool */
+	(void)tpt; (void)udata;
+	caller_tnum = -1;
 	do_call(NULL);
 	tpc_scribble();
 }
@@ -192,7 +208,20 @@ bcast_scenario(int idx) {
 			sc_fail("harness", "detached thread still reported running");
 	}
 	/* the call */
-	if (0 == v->caller) {
+	if (3 == v->caller) {
+		tp_settings_t s2;
+		tp_settings_def(&s2);
+		s2.flags = 0;
+		s2.threads_max = 1;
+		tp2 = NULL;
+		rc = tp_create(&s2, &tp2);
+		if (0 != rc || NULL == tp2) sc_fail("harness", "second pool: tp_create rc=%d", rc);
+		rc = tp_threads_create(tp2, 0);
+		if (0 != rc) sc_fail("harness", "second pool: tp_threads_create rc=%d", rc);
+		sc_wait_quiescent();
+		rc = tpt_msg_send(tp_thread_get(tp2, 0), NULL, 0, caller_otherpool_cb, NULL);
+		if (0 != rc) sc_fail("harness", "second pool: seed send rc=%d", rc);
+	} else if (0 == v->caller) {
 		caller_tnum = -1;
 		do_call(NULL);
 		tpc_scribble();
@@ -278,8 +307,9 @@ bcast_scenario(int idx) {
 		if (done_cnt > 1)
 			sc_fail("done-count", "completion callback ran %d times", done_cnt);
 		if (1 == done_cnt) {
-			if (done_tid != tpc_tid_of[caller_tnum])
-				sc_fail("done-wrong-thread", "completion ran on T%d, originating pool thread %d is T%d", done_tid, caller_tnum, tpc_tid_of[caller_tnum]);
+			int want_tid = (caller_tnum >= 0) ? tpc_tid_of[caller_tnum] : caller_tid;
+			if (done_tid != want_tid)
+				sc_fail("done-wrong-thread", "completion ran on T%d, originating thread (%s %d) is T%d", done_tid, (caller_tnum >= 0) ? "pool thread" : "a thread of another pool, caller", caller_tnum, want_tid);
 			if (last_end > done_ev)
 				sc_fail("done-before-last-cb", "completion (event %d) ran before the last callback finished (event %d)", done_ev, last_end);
 			if ((int)done_sent != total_cb)
